@@ -91,6 +91,9 @@ class C06(OptEngineBase):
         if rng.random() < 0.15:
             meta["int_flags"] = True  # flags as they come out of a CSV column: 0 / 1 instead of False / True
         n_ops = rng.choice([1, 1, 2, 2, 3, 4, 5, 6, 8])
+        if rng.random() < 0.02 and len(verts) <= 8:
+            n_ops = rng.randint(12, 24)  # a long session: something that only happens on the N-th call
+            meta["long_history"] = True
         ops = []
         for k in range(n_ops):
             r = rng.random()
